@@ -301,8 +301,6 @@ theorem out_step (S : Sys) (evs : List Ev) (m : MState) (t : Nat) (m' : MState) 
 
 /-! ### one client's record: the library AddVersion after the creation vs the creating AddVersion -/
 
-def Ev.isAv : Ev → Bool | .av .. => true | _ => false
-
 /-- the request whose final transaction a thread executes -/
 def linEv : Ev → Ev
   | .av c p seg n now => .avLib c p seg n now
@@ -351,7 +349,7 @@ theorem cstep_client_some (S : Sys) (e : Ev) (x : CSt) (h : x.client ≠ none) :
     | gs c => simp [cstep, hc]
     | reopen => simp [cstep, hc]
 
-theorem cstep_empty (S : Sys) (e : Ev) (he : e.isHttp = true) :
+theorem cstep_empty (S : Sys) (e : Ev) (he : e.isHttp = true ∨ e.isLib = true) :
     (cstep S e {}).2.client ≠ none ∨ (cstep S e {}).2 = {} := by
   cases e with
   | av c p seg n now =>
@@ -361,9 +359,9 @@ theorem cstep_empty (S : Sys) (e : Ev) (he : e.isHttp = true) :
   | gcv c p => right; rfl
   | «as» c v d now => right; simp [cstep, cAddSnapshot]
   | gs c => right; rfl
-  | avLib c p seg n now => simp [Ev.isHttp] at he
-  | create c => simp [Ev.isHttp] at he
-  | reopen => simp [Ev.isHttp] at he
+  | avLib c p seg n now => right; simp [cstep, cAddVersion]
+  | create c => simp [Ev.isHttp, Ev.isLib] at he
+  | reopen => simp [Ev.isHttp, Ev.isLib] at he
 
 theorem respond_404 : respond .notFound = respond .noSuchClient ∧ respond .noSnap = respond .noSuchClient := ⟨rfl, rfl⟩
 
@@ -406,6 +404,27 @@ theorem cstep_created (S : Sys) (e : Ev) (he : e.isHttp = true) :
 
 theorem isHttp_client (e : Ev) (h : e.isHttp = true) : ∃ c, e.client = some c := by
   cases e <;> simp [Ev.isHttp, Ev.client] at h ⊢
+
+theorem isLib_client (e : Ev) (h : e.isLib = true) : ∃ c, e.client = some c := by
+  cases e <;> simp [Ev.isLib, Ev.client] at h ⊢
+
+theorem reqMix_mem {evs : List Ev} (h : ReqMix evs) (e : Ev) (he : e ∈ evs) : e.isHttp = true ∨ e.isLib = true := by
+  rcases h with h | h
+  · exact .inl (h e he)
+  · exact .inr (h e he)
+
+theorem reqMix_client {evs : List Ev} (h : ReqMix evs) (e : Ev) (he : e ∈ evs) : ∃ c, e.client = some c := by
+  rcases reqMix_mem h e he with h | h
+  · exact isHttp_client e h
+  · exact isLib_client e h
+
+/-- if some request of the set is an HTTP AddVersion, all of them are HTTP requests -/
+theorem reqMix_av {evs : List Ev} (h : ReqMix evs) (e' : Ev) (he' : e' ∈ evs) (hav : e'.isAv = true) :
+    ∀ e ∈ evs, e.isHttp = true := by
+  rcases h with h | h
+  · exact h
+  · have := h e' he'
+    cases e' <;> simp [Ev.isAv, Ev.isLib] at hav this
 
 theorem addedId_nonAv (e : Ev) (o : Out) (h1 : e.isHttp = true) (h2 : e.isAv = false) : addedId e o = [] := by
   cases e <;> simp [Ev.isHttp, Ev.isAv] at h1 h2 <;> cases o <;> rfl
@@ -491,7 +510,7 @@ theorem linrel_phase (evs : List Ev) (m : MState) (b : AS) (h : LinRel evs m b) 
       · exact hx hp' e he
     · simp only [hut, ↓reduceIte] at hp'; exact h.isAv u e he hp'
 
-theorem nc_cstep (S : Sys) (e : Ev) (he : e.isHttp = true) (x : CSt) (hx : x.client = none → x = {}) :
+theorem nc_cstep (S : Sys) (e : Ev) (he : e.isHttp = true ∨ e.isLib = true) (x : CSt) (hx : x.client = none → x = {}) :
     (cstep S e x).2.client = none → (cstep S e x).2 = {} := by
   intro hn
   cases hc : x.client with
@@ -504,11 +523,11 @@ theorem nc_cstep (S : Sys) (e : Ev) (he : e.isHttp = true) (x : CSt) (hx : x.cli
   | some cl => exact absurd hn (cstep_client_some S e x (by rw [hc]; simp))
 
 /-- the simulation step -/
-theorem linrel_step (S : Sys) (evs : List Ev) (hhttp : ∀ e ∈ evs, e.isHttp = true) (m : MState) (t : Nat) (m' : MState) (b : AS)
+theorem linrel_step (S : Sys) (evs : List Ev) (hmix : ReqMix evs) (m : MState) (t : Nat) (m' : MState) (b : AS)
     (h : LinRel evs m b) (hs : MStep S evs m t m') :
     (linOrder m'.log = linOrder m.log ∧ LinRel evs m' b) ∨
     (∃ e, evs[t]? = some e ∧ linOrder m'.log = linOrder m.log ++ [t] ∧ LinRel evs m' (asStep S e b).2 ∧
-      ∃ o, m'.ph[t]? = some (.answered o) ∧ sameRespF3 e o (asStep S e b).1) := by
+      ∃ o, m'.ph[t]? = some (.answered o) ∧ RespRel evs e o (asStep S e b).1) := by
   cases hs with
   | invoke e he hp =>
     left
@@ -521,7 +540,7 @@ theorem linrel_step (S : Sys) (evs : List Ev) (hhttp : ∀ e ∈ evs, e.isHttp =
   | toCreate e he ph hp hph hn =>
     left
     refine ⟨rfl, ?_⟩
-    obtain ⟨c, hc⟩ := isHttp_client e (hhttp e (List.mem_of_getElem? he))
+    obtain ⟨c, hc⟩ := reqMix_client hmix e (List.mem_of_getElem? he)
     rcases hph with rfl | rfl
     · refine linrel_phase evs m b h t .needCreate .ready m.log hp (by simp) (by simp) ?_
       intro _ e' he'
@@ -531,7 +550,7 @@ theorem linrel_step (S : Sys) (evs : List Ev) (hhttp : ∀ e ∈ evs, e.isHttp =
   | create e he hp =>
     left
     refine ⟨rfl, ?_⟩
-    obtain ⟨c, hc⟩ := isHttp_client e (hhttp e (List.mem_of_getElem? he))
+    obtain ⟨c, hc⟩ := reqMix_client hmix e (List.mem_of_getElem? he)
     have hcs : createStep S e m.a = ⟨upd m.a.st c (cCreate (m.a.st c)), m.a.ids⟩ := by
       unfold createStep
       rw [hc]
@@ -588,8 +607,8 @@ theorem linrel_step (S : Sys) (evs : List Ev) (hhttp : ∀ e ∈ evs, e.isHttp =
   | lin e he ph hp hph hn =>
     right
     refine ⟨e, he, by simp [linOrder_append], ?_⟩
-    have hehttp := hhttp e (List.mem_of_getElem? he)
-    obtain ⟨c, hc⟩ := isHttp_client e hehttp
+    have hereq := reqMix_mem hmix e (List.mem_of_getElem? he)
+    obtain ⟨c, hc⟩ := reqMix_client hmix e (List.mem_of_getElem? he)
     have hcl : (linEv e).client = some c := by rw [linEv_client]; exact hc
     have hphne : ph ≠ .needCreate ∧ ph ≠ .idle := by rcases hph with rfl | rfl <;> simp
     -- what the two sides compute on the record of client c
@@ -627,7 +646,7 @@ theorem linrel_step (S : Sys) (evs : List Ev) (hhttp : ∀ e ∈ evs, e.isHttp =
       intro d
       rw [hb_st]
       by_cases hd : d = c
-      · subst hd; simp only [upd_same]; exact nc_cstep S e hehttp _ (h.nc d)
+      · subst hd; simp only [upd_same]; exact nc_cstep S e hereq _ (h.nc d)
       · simp only [upd_other _ _ _ _ hd]; exact h.nc d
     have hothers : ∀ d, d ≠ c → (m.a.st d = b.st d ∨
         (b.st d = {} ∧ m.a.st d = cCreated {} ∧ ∃ (t0 : Nat) (e0 : Ev), evs[t0]? = some e0 ∧ e0.client = some d ∧
@@ -655,8 +674,10 @@ theorem linrel_step (S : Sys) (evs : List Ev) (hhttp : ∀ e ∈ evs, e.isHttp =
         by_cases hd : d = c
         · subst hd; left; simp only [upd_same]; rw [hsame]
         · simp only [upd_other _ _ _ _ hd]; exact hothers d hd
-      · left; show respond _ = respond _; rw [hm_out, hb_out, hsame]
-    · -- the machine has the empty record, the one-at-a-time run has none
+      · left; rw [hm_out, hb_out, hsame]
+    · -- the machine has the empty record, the one-at-a-time run has none: some HTTP AddVersion is on its way
+      have hav0 : e0.isAv = true := h.isAv t0 e0 he0 (.inl hp0)
+      have hehttp : e.isHttp = true := reqMix_av hmix e0 (List.mem_of_getElem? he0) hav0 e (List.mem_of_getElem? he)
       rcases cstep_created S e hehttp with hsame | ⟨hs1, hs2, hnav, hresp⟩
       · have hsame' : cstep S (linEv e) (m.a.st c) = cstep S e (b.st c) := by rw [h1, h2]; exact hsame
         refine ⟨⟨?_, ?_, hnc, hretry, hisAv⟩, _, hph', ?_⟩
@@ -668,7 +689,7 @@ theorem linrel_step (S : Sys) (evs : List Ev) (hhttp : ∀ e ∈ evs, e.isHttp =
           by_cases hd : d = c
           · subst hd; left; simp only [upd_same]; rw [hsame']
           · simp only [upd_other _ _ _ _ hd]; exact hothers d hd
-        · left; show respond _ = respond _; rw [hm_out, hb_out, hsame']
+        · left; rw [hm_out, hb_out, hsame']
       · refine ⟨⟨?_, ?_, hnc, hretry, hisAv⟩, _, hph', ?_⟩
         · show (linStep S e m.a).2.ids = _
           rw [hm_ids, hb_ids, addedId_nonAv e _ hehttp hnav, addedId_nonAv e _ hehttp hnav, h.ids]
@@ -687,7 +708,7 @@ theorem linrel_step (S : Sys) (evs : List Ev) (hhttp : ∀ e ∈ evs, e.isHttp =
               rw [hnav] at this; cases this
             simp [this, hp0]
           · simp only [upd_other _ _ _ _ hd]; exact hothers d hd
-        · rw [hm_out, hb_out, h1, h2]; exact hresp
+        · rw [hm_out, hb_out, h1, h2]; exact .inr ⟨⟨e0, List.mem_of_getElem? he0, hav0⟩, hresp⟩
 
 
 /-! ### whole runs -/
@@ -716,7 +737,7 @@ theorem seqRun_fst (S : Sys) (evs : List Ev) (l : List Nat) (a : AS) (h : ∀ t 
 structure LinState (S : Sys) (evs : List Ev) (a0 : AS) (m : MState) : Prop where
   pl : PL evs m
   sim : ∃ b outs, seqRun S evs (linOrder m.log) a0 = (b, outs) ∧ LinRel evs m b ∧
-    ∀ t o', (t, o') ∈ outs → ∃ e o, evs[t]? = some e ∧ (m.ph[t]?).bind Phase.out? = some o ∧ sameRespF3 e o o'
+    ∀ t o', (t, o') ∈ outs → ∃ e o, evs[t]? = some e ∧ (m.ph[t]?).bind Phase.out? = some o ∧ RespRel evs e o o'
 
 theorem linstate_init (S : Sys) (evs : List Ev) (a0 : AS) (hnc : ∀ c, (a0.st c).client = none → a0.st c = {}) :
     LinState S evs a0 (minit a0 evs) := by
@@ -728,11 +749,11 @@ theorem linstate_init (S : Sys) (evs : List Ev) (a0 : AS) (hnc : ∀ c, (a0.st c
     simp only [minit, List.getElem?_map, he, Option.map_some] at hp
     rcases hp with hp | hp <;> cases hp
 
-theorem linstate_step (S : Sys) (evs : List Ev) (hhttp : ∀ e ∈ evs, e.isHttp = true) (a0 : AS) (m : MState) (t : Nat) (m' : MState)
+theorem linstate_step (S : Sys) (evs : List Ev) (hmix : ReqMix evs) (a0 : AS) (m : MState) (t : Nat) (m' : MState)
     (h : LinState S evs a0 m) (hs : MStep S evs m t m') : LinState S evs a0 m' := by
   refine ⟨pl_step S evs m t m' h.pl hs, ?_⟩
   obtain ⟨b, outs, hseq, hrel, houts⟩ := h.sim
-  rcases linrel_step S evs hhttp m t m' b hrel hs with ⟨hlog, hrel'⟩ | ⟨e, he, hlog, hrel', o, hph, hresp⟩
+  rcases linrel_step S evs hmix m t m' b hrel hs with ⟨hlog, hrel'⟩ | ⟨e, he, hlog, hrel', o, hph, hresp⟩
   · refine ⟨b, outs, by rw [hlog]; exact hseq, hrel', ?_⟩
     intro u o' hu
     obtain ⟨e, o, he, ho, hr⟩ := houts u o' hu
@@ -746,10 +767,10 @@ theorem linstate_step (S : Sys) (evs : List Ev) (hhttp : ∀ e ∈ evs, e.isHttp
         exact ⟨e', o'', he', out_step S evs m t m' hs u o'' ho, hr⟩
       · exact ⟨e, o, he, by rw [hph]; rfl, hresp⟩
 
-theorem linstate_run (S : Sys) (evs : List Ev) (hhttp : ∀ e ∈ evs, e.isHttp = true) (a0 : AS)
+theorem linstate_run (S : Sys) (evs : List Ev) (hmix : ReqMix evs) (a0 : AS)
     (hnc : ∀ c, (a0.st c).client = none → a0.st c = {}) (sch : List Nat) :
     LinState S evs a0 (mrun S evs (minit a0 evs) sch) :=
-  mrun_induct S evs (LinState S evs a0) (fun m t m' hm hs => linstate_step S evs hhttp a0 m t m' hm hs) _
+  mrun_induct S evs (LinState S evs a0) (fun m t m' hm hs => linstate_step S evs hmix a0 m t m' hm hs) _
     (linstate_init S evs a0 hnc) sch
 
 /-- **Linearizability of the transaction-atomic machine** (all request mixes, any number of
@@ -757,7 +778,7 @@ theorem linstate_run (S : Sys) (evs : List Ev) (hhttp : ∀ e ∈ evs, e.isHttp 
     last transactions is a permutation of the requests that respects real-time order, and running
     the requests one at a time in that order leaves exactly the machine's final storage and gives
     every request the response it got – up to F3 (`sameRespF3`). -/
-theorem machine_linearizable (S : Sys) (evs : List Ev) (hhttp : ∀ e ∈ evs, e.isHttp = true) (a0 : AS)
+theorem machine_linearizable (S : Sys) (evs : List Ev) (hmix : ReqMix evs) (a0 : AS)
     (hnc : ∀ c, (a0.st c).client = none → a0.st c = {}) (sch : List Nat)
     (hfin : allFinished (mrun S evs (minit a0 evs) sch)) :
     let m := mrun S evs (minit a0 evs) sch
@@ -767,9 +788,9 @@ theorem machine_linearizable (S : Sys) (evs : List Ev) (hhttp : ∀ e ∈ evs, e
       (∀ c, m.a.st c = (seqRun S evs order a0).1.st c) ∧ m.a.ids = (seqRun S evs order a0).1.ids ∧
       (seqRun S evs order a0).2.map Prod.fst = order ∧
       ∀ t o', (t, o') ∈ (seqRun S evs order a0).2 →
-        ∃ e o, evs[t]? = some e ∧ m.ph[t]? = some (.finished o) ∧ sameRespF3 e o o' := by
+        ∃ e o, evs[t]? = some e ∧ m.ph[t]? = some (.finished o) ∧ RespRel evs e o o' := by
   intro m order
-  have hls : LinState S evs a0 m := linstate_run S evs hhttp a0 hnc sch
+  have hls : LinState S evs a0 m := linstate_run S evs hmix a0 hnc sch
   obtain ⟨b, outs, hseq, hrel, houts⟩ := hls.sim
   have hpl := hls.pl
   have hfin' : ∀ (t : Nat) (p : Phase), m.ph[t]? = some p → ∃ o, p = Phase.finished o := by
